@@ -33,7 +33,7 @@ const char * const engine_props[] = { "C12", "C13", "C14", NULL };
 enum {
 	N_OPS, N_EA, N_EQ, N_MAP, N_POOL, N_HEAP, N_TQ, N_OVERFLOW, N_REFUSED, N_MOVED, N_F_ALLOC, N_OPFAIL,
 	N_EXPORT, N_EQ_COMPACT, N_MAP_FRONT, N_MAP_MID, N_MAP_UNKNOWN, N_POOL_GROW, N_POOL_REUSE, N_HEAP_CREATE,
-	N_HEAP_TIES, N_HEAP_BYHANDLE, N_TQ_TIES, N_TQ_NULL, N_BIG, N_MIXED, N_SHRINK_REALLOC, N_DRAINED, N_ITER, N_ITER_SHRINK
+	N_HEAP_TIES, N_HEAP_BYHANDLE, N_TQ_TIES, N_TQ_NULL, N_BIG, N_MIXED, N_SHRINK_REALLOC, N_DRAINED, N_ITER, N_ITER_SHRINK, N_BIGREC
 };
 const char * const engine_counters[] = {
 	"operations", "runs_elasticarray", "runs_elasticqueue", "runs_seqptrmap", "runs_mpool", "runs_ptrheap",
@@ -42,7 +42,8 @@ const char * const engine_counters[] = {
 	"probe_map_delete_front", "probe_map_delete_middle", "probe_map_unknown_number", "probe_pool_stack_doubled",
 	"probe_pool_object_reused", "probe_heap_create_from_array", "probe_heap_duplicate_keys", "probe_heap_by_handle_ops",
 	"probe_timerqueue_equal_times", "probe_timerqueue_getptr_null", "probe_size_over_1000", "probe_mixed_record_sizes",
-	"probe_shrink_reallocated", "probe_drained_elements", "probe_typed_iteration", "probe_iteration_visitor_shrinks", NULL
+	"probe_shrink_reallocated", "probe_drained_elements", "probe_typed_iteration", "probe_iteration_visitor_shrinks",
+	"probe_enormous_record_size", NULL
 };
 
 #define AF_SINCE(before) (simalloc_failed != (before))
@@ -251,6 +252,21 @@ ea_op(const char * op, size_t a, size_t b, int refuse)
 			b = 2;
 		a = k * (SIZE_MAX / b) + 1 + (a % 8);
 		op = op[0] == 's' ? "shrink" : "resize";
+	}
+	if (!strcmp(op, "resize_bigrec") || !strcmp(op, "append_bigrec") || !strcmp(op, "shrink_bigrec")) {
+		/*
+		 * A small record count with an enormous record size whose product wraps to something small:
+		 * reclen = 2^k + r, nrec = j * 2^(64-k) + i.  The true product is at least 2^64.
+		 */
+		unsigned k = 20 + (unsigned)(a % 44);		/* 20..63 */
+		size_t r = (a / 44) % 17, j = 1 + (a / 748) % 3, i = (b % 3);
+
+		b = ((size_t)1 << k) + r;
+		a = j * ((size_t)1 << (64 - k)) + i;
+		if (k == 63 && (a / 2) * 2 != a && r == 0)
+			a++;
+		op = op[0] == 'r' ? "resize" : op[0] == 'a' ? "append" : "shrink";
+		R->cnt[N_BIGREC]++;
 	}
 	if (!strcmp(op, "append_edge")) {
 		/* record counts right at the overflow boundary of the current size: SIZE_MAX/reclen - size/reclen - 1, +0, +1 */
@@ -1262,8 +1278,14 @@ engine_gen(struct plan * P, uint64_t seed, struct prng * g)
 				plan_add(P, "step", "resize", 3, (int64_t)(prng_chance(g, 15) ? prng_n(g, 3000) : prng_n(g, 40)), (int64_t)r, (int64_t)ref);
 			else if (x < 52)
 				plan_add(P, "step", "resize", 3, (int64_t)-1 - (int64_t)prng_n(g, 100), (int64_t)(2 + prng_n(g, 30)), (int64_t)0);
-			else if (x < 53)
-				plan_add(P, "step", prng_chance(g, 60) ? "shrink_edge" : "resize_edge", 3, (int64_t)prng_n(g, 64), (int64_t)(2 + prng_n(g, 15)), (int64_t)0);
+			else if (x < 53) {
+				if (prng_chance(g, 40)) {
+					static const char * const br[] = { "resize_bigrec", "append_bigrec", "shrink_bigrec" };
+
+					plan_add(P, "step", br[prng_n(g, 3)], 3, (int64_t)prng_n(g, 3000), (int64_t)prng_n(g, 3), (int64_t)0);
+				} else
+					plan_add(P, "step", prng_chance(g, 60) ? "shrink_edge" : "resize_edge", 3, (int64_t)prng_n(g, 64), (int64_t)(2 + prng_n(g, 15)), (int64_t)0);
+			}
 			else if (x < 72)
 				plan_add(P, "step", "shrink", 3, (int64_t)(prng_chance(g, 20) ? prng_n(g, 3000) : prng_n(g, 12)), (int64_t)r, (int64_t)ref);
 			else if (x < 78)
